@@ -10,6 +10,10 @@ Oracle: the property itself on the implementation — canonical lookup, openness
     copy/pickle, and the binary / dict / JSON round trip of every int32 boundary number in the five
     field positions (singular, repeated, map value, oneof, optional) of real message classes.
 T3: google.protobuf on the same message shape (bytes both ways; int32 truncation of enum varints).
+T2 (message level): the five-position class is also built with harness/msggen.py as a schema of the shared codec model;
+    the message of the message-level theorems (m = Cls(); m.f = v, and Cls(f=v)), its bytes, what the parsed / rebuilt
+    message reads as, the dict, the JSON form under the field's key (against the first-declared-name rule computed here)
+    and every hypothesis of C20_roundtrip_message_binary / _json are evaluated inside Coq and compared.
 """
 import copy
 import dataclasses
@@ -34,8 +38,10 @@ TRUSTED = [
     "exceptions to error kinds, dynamic construction of betterproto Enum / Message classes and of the google.protobuf twin",
     "object identity is modelled as 'equal to the pair stored in _value_map_ under its number'; real `is` identity is "
     "checked by the harness on the implementation only",
-    "the message-level codec (tags, lengths, field order, presence) is not modelled here: the five field positions and "
-    "JSON are exercised on the implementation by the oracle; the theorems cover the scalar / packed-list level",
+    "the message-level theorems (C20_roundtrip_message_binary / _json and their _built forms) are instances of C01_roundtrip and "
+    "C04's from_to_dict_norm over the shared codec model (Model/Object, Encode, Decode, Json), which is tied to the code by the "
+    "checks of C01 / C04 on generated schemas (enum fields in all five positions included) and, for the five-position class and "
+    "the messages the theorems build, by the message-level correspondence of this check",
     "oracles: CPython 3.12 copy/pickle/json, google.protobuf 7.x (upb)",
 ]
 ASSUMPTIONS = [
@@ -49,6 +55,10 @@ RULE = ("class bodies: systematic shapes (single 0, no 0, all aliases, negatives
         "histories: 24-40 operations over all 20 operation kinds, arguments 70% defined / 30% undefined; scalar path: wrap64 of every "
         "int32 boundary +-2, 7-bit boundaries, random 32/64-bit varints, packed buffers valid / truncated / random; positions: "
         "{singular, repeated, map value, oneof, optional} x {binary, dict, json} x boundary numbers; "
+        "message level: the five-position class as a schema of the shared codec model over the reference body and 2 (thorough: 12) random "
+        "bodies with distinct names x the five positions x {declared numbers, 0, 1, -1, 5, -7, int32 bounds, 2 random int32}: object state of "
+        "m.f = v and Cls(f=v), bytes, parse, to_dict, dict[key] against the first-declared-name rule, from_dict, from_json, from_dict of the "
+        "number and of every declared name, and the hypotheses of the message-level theorems; "
         "non-trivial = class with >= 2 members or a non-zero number; distinct = distinct (body, history) / (position, codec, number, body)")
 
 INT32_MIN, INT32_MAX = -(1 << 31), (1 << 31) - 1
@@ -655,6 +665,181 @@ def t3(ctx, numbers, rng):
     ctx.cov["evaluations"] += n
 
 
+# ----------------------------------------------------------------------------- T2, message level (the five positions)
+MSG_IMPORTS = ("Model.Types Model.Object Model.Eq Model.Encode Model.Decode Model.WellFormed Model.C01Def Model.Canon Model.Json "
+               "Model.C20Msg Proofs.C04Def Proofs.C20MsgDef")
+MSG_PRELUDE = """From BP Require Model.Enum.
+Definition posz (p : epos) : Z := match p with PosSingular => 0 | PosRepeated => 1 | PosMapValue => 2 | PosOneof => 3 | PosOptional => 4 end.
+Definition fld (sc : schema) (i : nat) : fdesc := nth i (cfields (get_class sc 11)) (mkF [] 0 TBool None None None false (HPlain PyBool) 0).
+Definition positions (sc : schema) : cv :=
+  CL (map (fun f => copt (fun pe => CL [CZ (posz (fst pe)); CZ (Z.of_nat (snd pe))]) (enum_position f)) (cfields (get_class sc 11))).
+Definition schema_hyps (sc : schema) : cv :=
+  CL [cbool (c01_schema_ok sc); cbool (wf_schema sc); cbool (keys_ok CAMEL sc); cbool (keys_ok SNAKE sc)].
+Definition value_hyps (sc : schema) (m : obj) (i : nat) (pos : epos) (x : pv) (v : Z) : cv :=
+  CL [cbool (c01_value_ok sc m); cbool (good sc m); cv_pv_res (read sc m i); cbool (holds_enum pos x v)].
+Definition after_parse (sc : schema) (m : obj) (i : nat) : cv :=
+  match enc_obj sc m with
+  | Ok bs => match parse sc 11 bs with
+             | Ok m' => CL [cv_pv_res (read sc m' i); cv_bytes_res (enc_obj sc m')]
+             | Err _ => CE EOther
+             end
+  | Err _ => CE EOther
+  end.
+Definition after_dict (sc : schema) (m : obj) (i : nat) : cv :=
+  match from_dict_inst sc (new sc 11) (to_dict CAMEL false sc m) with
+  | Ok m' => CL [cv_pv_res (read sc m' i); cv_bytes_res (enc_obj sc m')]
+  | Err _ => CE EOther
+  end.
+Definition after_json (sc : schema) (m : obj) (i : nat) : cv :=
+  match json_rt_inst SNAKE false sc m (new sc 11) with
+  | Ok m' => cv_pv_res (read sc m' i)
+  | Err _ => CE EOther
+  end.
+Definition member_cv (sc : schema) (v : Z) : cv := copt Enum.cmem (field_member sc 0 (PInt v)).
+"""
+MSG_FIELDS = [("s", 0, "PosSingular"), ("r", 1, "PosRepeated"), ("m", 2, "PosMapValue"), ("a", 3, "PosOneof"), ("o", 5, "PosOptional")]
+
+
+def five_position_schema(body):
+    """the five-position class as a schema of the shared codec model (real classes + Gallina literal)"""
+    from .. import msggen as G
+    E = G.Elem("enum", "enum", 0)
+    fields = [G.Field("s", 1, "plain", E), G.Field("r", 2, "repeated", E), G.Field("m", 3, "map", E, key=G.scalar("string")),
+              G.Field("a", 4, "plain", E, group=0), G.Field("b", 5, "plain", G.scalar("string"), group=0),
+              G.Field("o", 6, "optional", E)]
+    return G.Schema([G.Cls("M5", fields, ngroups=1)], [list(body)])
+
+
+def first_name(body, v):
+    for n, x in body:
+        if x == v:
+            return n
+    return None
+
+
+def message_level(ctx, rng, bodies):
+    """pairs (model expression, implementation result) about the messages of the message-level theorems"""
+    from .. import msggen as G, jsongen
+    pairs, descr, prelude = [], [], [MSG_PRELUDE]
+
+    def add(model, expected, d):
+        pairs.append((model, expected))
+        descr.append(d)
+
+    for si, body in enumerate(bodies):
+        try:
+            sch = five_position_schema(body)
+        except Exception as e:  # noqa
+            ctx.fail("oracle", f"five-position schema over enum {body!r} could not be built: {e!r}", cls="other",
+                     input={"kind": "msg-level", "body": body})
+            continue
+        sc = f"msc{si}"
+        prelude.append(f"Definition {sc} : schema := {sch.coq()}.")
+        M, E = sch.classes[0].py, sch.pyenums[0]
+        add(f"schema_hyps {sc}", cl([cbool(True)] * 4), {"kind": "msg-level schema hypotheses", "body": body})
+        add(f"positions {sc}", cl([cl([cz(0), cz(0)]), cl([cz(1), cz(0)]), cl([cz(2), cz(0)]), cl([cz(3), cz(0)]), CN, cl([cz(4), cz(0)])]),
+            {"kind": "msg-level enum_position", "body": body})
+        defined = sorted({v for _, v in body})
+        numbers = sorted(set(defined + [0, 1, -1, 5, -7, INT32_MIN, INT32_MAX] + [rng.randint(INT32_MIN, INT32_MAX) for _ in range(2)]))
+        for v in numbers:
+            nm = first_name(body, v)
+            jel = nm if nm is not None else v
+            for fname, idx, pos in MSG_FIELDS:
+                d = {"kind": "msg-level", "body": body, "pos": fname, "v": v}
+                try:
+                    val = E.try_value(v)
+                    place = [val] if fname == "r" else ({"k": val} if fname == "m" else val)
+                    jform = [jel] if fname == "r" else ({"k": jel} if fname == "m" else jel)
+                    omitted = fname == "s" and v == 0
+                    m = M()
+                    setattr(m, fname, place)
+                    lit = G.obj_literal(sch, m)                      # before any observer
+                    lit_c = G.obj_literal(sch, M(**{fname: place}))
+                    data = bytes(m)
+                    m2 = M().parse(data)
+                    got2 = getattr(m2, fname)
+                    dct = m.to_dict()
+                    m3 = M().from_dict(dct)
+                    got3 = getattr(m3, fname)
+                    got4 = getattr(M().from_json(m.to_json(casing=bp_casing_snake())), fname)
+                    g = got2[0] if fname == "r" else (got2["k"] if fname == "m" else got2)
+                    mem = cl([CN if g.name is None else cb(g.name.encode("utf-8")), cz(int(g))])
+                    mexpr = f"(built {sc} 11 {idx} {pos} (PStr [x6b]) {coq_z(v)})"
+                    pl = f"(place {pos} (PStr [x6b]) {coq_z(v)})"
+                    add(f"cv_of_obj {mexpr}", f"(cv_of_obj {lit})", dict(d, what="m = Cls(); m.f = v"))
+                    add(f"cv_of_obj (construct {sc} 11 [({idx}%nat, {pl})])", f"(cv_of_obj {lit_c})", dict(d, what="Cls(f=v)"))
+                    add(f"value_hyps {sc} {mexpr} {idx} {pos} {pl} {coq_z(v)}",
+                        cl([cbool(True), cbool(True), f"(cv_of_pv {G.pv_literal(sch, place)})", cbool(True)]), dict(d, what="hypotheses"))
+                    add(f"cv_bytes_res (enc_obj {sc} {mexpr})", cb(data), dict(d, what="bytes"))
+                    add(f"after_parse {sc} {mexpr} {idx}", cl([f"(cv_of_pv {G.pv_literal(sch, got2)})", cb(bytes(m2))]), dict(d, what="parse"))
+                    add(f"member_cv {sc} {coq_z(v)}", mem, dict(d, what="decoded member"))
+                    add(f"cv_of_json (to_dict CAMEL false {sc} {mexpr})", jsongen.json_cv(dct), dict(d, what="to_dict"))
+                    add(f"copt cv_of_json (jlookup (key_of_field CAMEL (fld {sc} {idx})) (to_dict CAMEL false {sc} {mexpr}))",
+                        CN if fname not in dct else jsongen.json_cv(dct[fname]), dict(d, what="dict[key]"))
+                    add(f"CL [cbool (enum_omitted {pos} {pl}); cv_of_json (enum_field_json {sc} 0 {pl})]",
+                        cl([cbool(omitted), jsongen.json_cv(jform)]), dict(d, what="name-or-number rule"))
+                    why = replay_msg_level(body, fname, v)
+                    if why:
+                        ctx.fail("oracle", WHAT["other"], cls="other", detail=why, input=d)
+                    add(f"after_dict {sc} {mexpr} {idx}", cl([f"(cv_of_pv {G.pv_literal(sch, got3)})", cb(bytes(m3))]), dict(d, what="from_dict"))
+                    add(f"after_json {sc} {mexpr} {idx}", f"(cv_of_pv {G.pv_literal(sch, got4)})", dict(d, what="from_json"))
+                    # from_dict on the number and on EVERY declared name of it (aliases included): the same message
+                    for jn in [v] + [n for n, x in body if x == v]:
+                        doc = {fname: [jn] if fname == "r" else ({"k": jn} if fname == "m" else jn)}
+                        jq = f"(JInt {coq_z(jn)})" if isinstance(jn, int) else f"(JStr {q_name(jn)})"
+                        ma = M.from_dict(doc)
+                        lit_a = G.obj_literal(sch, ma)
+                        add(f"cv_obj_res (from_dict_cls {sc} 11 (jdoc (key_of_field CAMEL (fld {sc} {idx})) {pos} (JStr [x6b]) {jq}))",
+                            f"(cv_of_obj {lit_a})", dict(d, what=f"from_dict of the document carrying {jn!r}"))
+                        if lit_a != lit:
+                            ctx.fail("oracle", WHAT["other"], cls="other", input=d,
+                                     detail=f"from_dict({doc!r}) is not the message holding {v} in position {fname!r}: {lit_a} vs {lit}")
+                    ctx.count(f"msg_level:{fname}")
+                    ctx.seen_nontrivial(("msg", fname, v, tuple(body)))
+                except Exception as e:  # noqa
+                    ctx.fail("oracle", f"message-level case raised {e!r}", cls="other", input=d)
+    return pairs, descr, "\n".join(prelude)
+
+
+def replay_msg_level(body, fname, v):
+    """the implementation side of one message-level case: name-or-number form under the key, and the three round trips"""
+    sch = five_position_schema(body)
+    M, E = sch.classes[0].py, sch.pyenums[0]
+    val = E.try_value(v)
+    nm = first_name(body, v)
+    jel = nm if nm is not None else v
+    place = [val] if fname == "r" else ({"k": val} if fname == "m" else val)
+    jform = [jel] if fname == "r" else ({"k": jel} if fname == "m" else jel)
+    omitted = fname == "s" and v == 0
+    m = M()
+    setattr(m, fname, place)
+    dct = m.to_dict()
+    if (fname in dct) == omitted:
+        return f"to_dict {'omits' if omitted else 'keeps'} field {fname!r} holding {v}: {dct!r}"
+    if fname in dct and dct[fname] != jform:
+        return f"to_dict carries {dct[fname]!r} for {v} in position {fname!r}; the name-or-number rule gives {jform!r}"
+    for how, m2 in (("parse(bytes)", M().parse(bytes(m))), ("from_dict(to_dict)", M().from_dict(dct)), ("from_json(to_json)", M().from_json(m.to_json()))):
+        got = getattr(m2, fname)
+        if not same_number(got, place):
+            return f"{how}: position {fname!r} holding {v} came back as {got!r}"
+        for g in members_of_value(got):
+            if type(g) is not E or (v in E._value_map_ and g is not E(v)) or (v not in E._value_map_ and g.name is not None):
+                return f"{how}: position {fname!r}: {g!r} is not the canonical member / open value of {v}"
+        if bytes(m2) != bytes(m):
+            return f"{how}: the rebuilt message encodes differently"
+    return None
+
+
+def pairs_expr(e):
+    return e[:600]
+
+
+def bp_casing_snake():
+    import betterproto as bp
+    return bp.Casing.SNAKE
+
+
+
 # ----------------------------------------------------------------------------- main
 def corpus_inputs():
     p = os.path.join(lib.VERIF, "corpus", "C20-regress.json")
@@ -888,13 +1073,32 @@ def run(ctx):
         if 0 <= i < len(pairs):
             ctx.sample({"case": descr[i], "model_expr": pairs[i][0][:400], "impl": pairs[i][1][:400]})
 
+    # ------------------------------------------------------------------ T2, message level
+    plain = [b for b, _, _ in classes if len({n for n, _ in b}) == len(b) and all(not n.startswith("__") for n, _ in b)]
+    mbodies = [REF_BODY] + [plain[rng.randrange(len(plain))] for _ in range(2 if not ctx.thorough else 12) if plain]
+    mpairs, mdescr, mprelude = message_level(ctx, rng, mbodies)
+    ctx.cov["evaluations"] += len(mpairs)
+    ctx.count("msg_level_cases", len(mpairs))
+    mbad = lib.coq_compare(ctx, "c20msg", MSG_IMPORTS, mpairs, chunk=max(40, -(-len(mpairs) // lib.JOBS)), prelude=mprelude)
+    ctx.cov["disagreements_checked"] += len(mpairs)
+    oracle_found_input = any(f["kind"] == "oracle" for f in ctx.failures)
+    for i in mbad[:10]:
+        ctx.fail("corr", f"model and implementation disagree on the message level: {mdescr[i].get('what', mdescr[i]['kind'])}",
+                 input=mdescr[i], no_input=not oracle_found_input, expected_model=pairs_expr(mpairs[i][0]), observed_impl=mpairs[i][1][:600],
+                 theorem_or_correspondence="T2 message level: Model/C20Msg.v built / place / enum_field_json and the shared codec model "
+                                           "<-> betterproto.Message with enum fields in the five positions")
+    if mpairs:
+        ctx.sample({"case": mdescr[len(mpairs) // 2], "model_expr": mpairs[len(mpairs) // 2][0][:400], "impl": mpairs[len(mpairs) // 2][1][:400]})
+
 
 def finish(ctx):
     return lib.finish(
         ctx, "proof",
         "Coq theorems over a Gallina mirror of betterproto/enum.py and of the enum scalar path of both codecs "
-        "(for all class bodies, all numbers, all histories) + executable correspondence (vm_compute) with the implementation "
-        "+ the property evaluated on real Enum/Message classes in the five field positions + google.protobuf twin",
+        "(for all class bodies, all numbers, all histories) and, for the five field positions, message-level theorems obtained by "
+        "instantiating C01_roundtrip / C04's theorems over the shared codec model (for all schemas and messages meeting their decidable "
+        "conditions; for m = Cls(); m.f = v with no condition on the message) + executable correspondence (vm_compute) with the "
+        "implementation at both levels + the property evaluated on real Enum/Message classes in the five field positions + google.protobuf twin",
         ASSUMPTIONS, TRUSTED, RULE,
         extra_cov={"exhaustive": False,
                    "explanation": "theorems are unbounded; the correspondence and the position oracle are sampled (systematic shapes first)"})
@@ -916,6 +1120,11 @@ def replay(ctx, obj):
         want = ((inp["raw"] & 0xFFFFFFFF) ^ 0x80000000) - 0x80000000
         print(f"varint {inp['raw']} in an enum field reads as {got}; int32 truncation gives {want}")
         return 0 if got == want else 1
+    if kind and kind.startswith("msg-level") and "pos" in inp:
+        why = replay_msg_level([tuple(x) for x in inp["body"]], inp["pos"], inp["v"])
+        print("still failing: " + why if why else "the implementation side of this message-level case passes on this tree "
+              "(a correspondence case: re-run ./check C20 for the model side)")
+        return 1 if why else 0
     if kind == "api":
         body = [tuple(x) for x in inp["body"]]
         cname, E = make_enum(body)
